@@ -1,7 +1,8 @@
 /-
 Second walk, continued: `syncCreateTasks`, the handlers, `syncJobTasks`, `handleFinalizer`, `sync`.
-Result (`sync_good`): from a state whose pods are all the Job's and a cached Job with good refs, `sync`
-computes a Job with good refs that keeps every recorded ref and timestamp.  Core Lean only.
+Result (`sync_good`): from a state whose pods controlled by the Job are well-formed (foreign pods are
+unconstrained) and a cached Job with good refs, `sync` computes a Job with good refs that keeps every
+recorded ref and timestamp.  Core Lean only.
 -/
 import FurikoModel.Proofs.JobCtlInvRefsWalk
 
@@ -60,7 +61,7 @@ theorem syncCreateTasks_good {j0 : JobObj} (s : Sys) (jo : JobObj) (tasks : List
     · intro h
       simp only [Option.some.injEq, Prod.mk.injEq] at h
       obtain ⟨rfl, rfl⟩ := h
-      exact ⟨GK.refl hg, adoptUnrecordedTasks_good s jo tasks hp ht⟩
+      exact ⟨GK.refl hg, adoptUnrecordedTasks_good s jo tasks hp hjo.uid ht⟩
     · cases hreqs : computeMissingIndexesForCreation s.d jo.job (jo.job.indexes s.d) with
       | none => (try simp only); intro h; cases h
       | some reqs =>
@@ -68,7 +69,7 @@ theorem syncCreateTasks_good {j0 : JobObj} (s : Sys) (jo : JobObj) (tasks : List
         have hnames := reqs_names hwf hjo hg.refs hreqs
         have hreq : ∀ r ∈ reqs, CreateReq s.d jo r.index r.retryIndex :=
           fun r hr => ⟨hst, hdel, hcan, reqs, r.earliest, hreqs, hr⟩
-        have h1 := createLoop_good jo s.d s.podCache hjo reqs s jo.job tasks none rfl rfl hp hreq ht hnames.1
+        have h1 := createLoop_good jo s.d s.podCache (podNames s.pods) hjo reqs s jo.job tasks none rfl rfl (fun _ h => h) hp hreq ht hnames.1
           (fun r hr hmem => hnames.2 r hr (hsub _ hmem))
         have hm := (createLoop_spec jo s s.d reqs s jo.job tasks none rfl (CreatePhase.refl _) hreq (fun t h' => (ht.ok t h').1)).1
         generalize createLoop jo reqs s jo.job tasks none = res at h1 hm ⊢
@@ -79,7 +80,7 @@ theorem syncCreateTasks_good {j0 : JobObj} (s : Sys) (jo : JobObj) (tasks : List
           obtain ⟨rj', tasks', minE⟩ := v
           (try simp only)
           obtain ⟨hstat, ht', _, _⟩ := h1 rj' tasks' minE rfl
-          have hgk1 : GK j0 s.d jo.job rj' := GK.of_status hg (by rw [hstat])
+          have hgk1 : GK j0 s.d jo.job rj' := GK.of_status hg hstat.status
           have fin : ∀ s2, s2.d = s.d →
               GK j0 s.d jo.job (updateTaskRefStatus s2 (jobKey jo) rj' tasks').2 := by
             intro s2 hd2
@@ -101,7 +102,7 @@ theorem syncCreateTasks_good {j0 : JobObj} (s : Sys) (jo : JobObj) (tasks : List
     intro h
     simp only [Option.some.injEq, Prod.mk.injEq] at h
     obtain ⟨rfl, rfl⟩ := h
-    exact ⟨GK.refl hg, adoptUnrecordedTasks_good s jo tasks hp ht⟩
+    exact ⟨GK.refl hg, adoptUnrecordedTasks_good s jo tasks hp hjo.uid ht⟩
 
 theorem handlePendingTasks_good {j0 : JobObj} {d : PIndex} (s : Sys) (jo : JobObj) (rj : Job) (tasks : List Task)
     (hg : Good j0 d rj) : OutGK j0 d rj (handlePendingTasks s jo rj tasks).2 := by
@@ -163,10 +164,10 @@ theorem syncJobTasks_good {j0 : JobObj} (s : Sys) (jo : JobObj) (hwf : WF2 j0 s.
     OutGK j0 s.d jo.job (syncJobTasks s jo jo.job).2 := by
   unfold syncJobTasks
   (try simp only)
-  have htf := tasksForRefs_good hp jo.job.status.tasks hg.nodup
-  have h1 := syncCreateTasks_good s jo (tasksForRefs s jo.job.status.tasks) hwf hp hjo hg hst hdel htf.1 htf.2
-  have hm1 := (syncCreateTasks_spec s jo s (tasksForRefs s jo.job.status.tasks) hst hdel (tasksForRefs_ok s _) (CreatePhase.refl _)).1
-  generalize syncCreateTasks s jo jo.job (tasksForRefs s jo.job.status.tasks) = r1 at h1 hm1 ⊢
+  have htf := tasksForRefs_good (jo := jo) hp hjo.uid jo.job.status.tasks hg.nodup
+  have h1 := syncCreateTasks_good s jo (tasksForRefs s jo jo.job.status.tasks) hwf hp hjo hg hst hdel htf.1 htf.2
+  have hm1 := (syncCreateTasks_spec s jo s (tasksForRefs s jo jo.job.status.tasks) hst hdel (tasksForRefs_ok s jo _) (CreatePhase.refl _)).1
+  generalize syncCreateTasks s jo jo.job (tasksForRefs s jo jo.job.status.tasks) = r1 at h1 hm1 ⊢
   obtain ⟨s1, o1⟩ := r1
   cases o1 with
   | none => (try simp only); intro _ h; cases h
@@ -219,7 +220,7 @@ theorem syncJobTasks_good {j0 : JobObj} (s : Sys) (jo : JobObj) (hwf : WF2 j0 s.
           exact hgk5.trans h6
 
 theorem handleFinalizer_good {j0 : JobObj} (s : Sys) (jo : JobObj) (rj : Job) (fin : Bool)
-    (hp : PodsGood j0 s) (hg : Good j0 s.d rj) :
+    (hp : PodsGood j0 s) (hu : jo.uid = j0.uid) (hg : Good j0 s.d rj) :
     ∀ rj1 fin1, (handleFinalizer s jo rj fin).2 = some (rj1, fin1) → GK j0 s.d rj rj1 := by
   intro rj1 fin1
   unfold handleFinalizer
@@ -230,7 +231,7 @@ theorem handleFinalizer_good {j0 : JobObj} (s : Sys) (jo : JobObj) (rj : Job) (f
     · (try simp only)
       have htf : TasksGood j0 s.d (finalizerTasks s jo rj) := by
         unfold finalizerTasks
-        exact adoptUnrecordedTasks_good s _ _ hp (tasksForRefsConfirmed_good hp rj.status.tasks hg.nodup)
+        exact adoptUnrecordedTasks_good s _ _ hp hu (tasksForRefsConfirmed_good hp hu rj.status.tasks hg.nodup)
       split
       · have hk := foldl_deletedStatus_gk (j0 := j0) (d := s.d)
           { state := .terminated, result := .killed, reason := "JobDeleted" } (finalizerTasks s jo rj) rj hg
@@ -258,7 +259,8 @@ theorem handleFinalizer_good {j0 : JobObj} (s : Sys) (jo : JobObj) (rj : Job) (f
         exact h1
 
 /-- The Job value a pass computes has good refs and keeps every recorded ref and timestamp, provided
-every pod the controller can see is the Job's and the cached Job's refs are good. -/
+every pod of the Job the controller can see is well-formed and the cached Job's refs are good
+(whatever foreign pods exist: no lookup reads them). -/
 theorem sync_good {j0 : JobObj} (s : Sys) (jo : JobObj) (hwf : WF2 j0 s.d) (hp : PodsGood j0 s)
     (hjo : VerOK j0 jo) (hg : Good j0 s.d jo.job) : GK j0 s.d jo.job (sync s jo).2.1 := by
   unfold sync
@@ -304,7 +306,7 @@ theorem sync_good {j0 : JobObj} (s : Sys) (jo : JobObj) (hwf : WF2 j0 s.d) (hp :
       have hms3 : Micros jo s s s3 := (hm1.trans (.frame hf2)).trans hm3
       have hp3 : PodsGood j0 s3 := hp.micros hjo hms3
       have hd3 : s3.d = s.d := hms3.static.d
-      have h4 := handleFinalizer_good s3 jo rj2 jo.finalizer hp3 (hd3 ▸ hgk2.1)
+      have h4 := handleFinalizer_good s3 jo rj2 jo.finalizer hp3 hjo.uid (hd3 ▸ hgk2.1)
       generalize handleFinalizer s3 jo rj2 jo.finalizer = r4 at h4 ⊢
       obtain ⟨s4, o4⟩ := r4
       cases o4 with
